@@ -79,7 +79,13 @@ def options() -> t.Any:
     import sansldap._messages as M
 
     if not _OPTS:
-        _OPTS.append(M.PackingOptions())
+        o = M.PackingOptions()
+        # application-registered alternatives (what register_auth_credential / register_filter do to a session's options)
+        for n in proj.OTHER_IDS:
+            o.authentication.choices.append(proj.other_class("auth", n))
+            if n > 9:
+                o.filter.choices.append(proj.other_class("filter", n))
+        _OPTS.append(o)
     return _OPTS[0]
 
 
@@ -161,9 +167,27 @@ def codec_event(msg: t.Any) -> t.Dict[str, t.Any]:
     return e
 
 
+def other_messages(rnd: random.Random) -> t.List[t.Any]:
+    """Messages carrying application-registered credential / filter types: every tag number of proj.OTHER_IDS with
+    content lengths on both sides of the short / long length form."""
+    import sansldap as s
+    import sansldap._messages as M
+
+    out: t.List[t.Any] = []
+    for n in proj.OTHER_IDS:
+        for ln in (0, 5, 127, 128, 300, rnd.choice((255, 256, 1000))):
+            val = bytes(rnd.randrange(256) for _ in range(ln))
+            out.append(M.BindRequest(rnd.randrange(1, 100), [], 3, "cn=x", proj.other_class("auth", n)(val=val)))
+            if n > 9:
+                leaf = proj.other_class("filter", n)(val=val)
+                f = rnd.choice((leaf, s.FilterNot(leaf), s.FilterAnd([s.FilterPresent("cn"), leaf]), s.FilterOr([s.FilterNot(leaf), s.FilterEquality("a", b"b")])))
+                out.append(M.SearchRequest(rnd.randrange(1, 100), [], "dc=x", M.SearchScope.SUBTREE, M.DereferencingPolicy.NEVER, 0, 0, False, f, ["cn"]))
+    return out
+
+
 def trace_part(rep: C.Report, wd: str, tier: str, rnd: random.Random, extra_msgs: t.Sequence[t.Any] = ()) -> None:
     n = 2500 if tier == "quick" else 40000
-    msgs = list(extra_msgs) + [msggen.r_message(rnd) for _ in range(n)]
+    msgs = list(extra_msgs) + other_messages(rnd) + [msggen.r_message(rnd) for _ in range(n)]
     events = []
     for m in msgs:
         if C.too_many_hangs():
@@ -261,6 +285,8 @@ def run_c04(tier: str, seed: int) -> int:
     try:
         _, alt = generate(rep, wd, tier, seed, want_alt=True)
         n_sess = 0
+        n_cut = 0
+        crnd = random.Random(seed * 31 + 4)
         for cs in alt:
             m, enc = cs["m"], bytes(cs["enc"])
             rep.case(("alt", cs["mi"], cs["xd"], tuple(cs["ch"])))
@@ -285,10 +311,30 @@ def run_c04(tier: str, seed: int) -> int:
                         rep.violation(f"ReceiveSameValue/{sig_of(m)}", f"{what}: LDAPServer.receive returned {len(got)} message(s) / a different value", cs)
                 except Exception as ex:  # noqa: BLE001
                     rep.violation(f"ReceiveAccepts/{sig_of(m)}/{type(ex).__name__}", f"{what}: LDAPServer.receive raised {type(ex).__name__}: {ex}", cs)
-        rep.add_part("spec->code replay of alternative encodings (unpack_ldap_message; requests also through LDAPServer.receive)", cases=len(alt), via_session=n_sess)
+                # a conforming peer's octets arrive in whatever segments the transport makes of them: the same encoding cut
+                # in two at every position (at eight positions for long ones) must give the same single message
+                if n_sess % 16 == 0:
+                    cuts = list(range(1, len(enc))) if len(enc) <= 48 else sorted(crnd.sample(range(1, len(enc)), 8))
+                elif n_sess % 2 == 0:  # the first octets hold the outer and the first inner headers, whatever follows
+                    cuts = sorted(crnd.sample(range(1, min(len(enc), 12)), 2))
+                else:
+                    cuts = []
+                for p_ in cuts:
+                    n_cut += 1
+                    srv = sansldap.LDAPServer()
+                    try:
+                        a_ = srv.receive(enc[:p_])
+                        b_ = srv.receive(enc[p_:])
+                        if a_ or len(b_) != 1 or proj.to_abstract(b_[0]) != m:
+                            rep.violation(f"ReceiveChunkedSameValue/{sig_of(m)}", f"{what} cut at octet {p_}: receive returned {len(a_)} + {len(b_)} message(s) / a different value", {"case": cs, "cut": p_})
+                            break
+                    except Exception as ex:  # noqa: BLE001
+                        rep.violation(f"ReceiveChunkedAccepts/{sig_of(m)}/{type(ex).__name__}", f"{what} cut at octet {p_}: LDAPServer.receive raised {type(ex).__name__}: {ex}", {"case": cs, "cut": p_})
+                        break
+        rep.add_part("spec->code replay of alternative encodings (unpack_ldap_message; requests also through LDAPServer.receive)", cases=len(alt), via_session=n_sess, via_session_in_two_chunks=n_cut)
         for cs in alt[:2] + alt[-1:]:
             rep.sample({"mi": cs["mi"], "op": cs["m"]["op"], "xd": cs["xd"], "choices": cs["ch"], "enc_hex": bytes(cs["enc"]).hex()[:160]})
-        rep.rule = ("TLC enumerates LdapMsgGen: for every pool message all 100 uniform styles (5 length forms x 4 TRUE octets x 5 trailers) with and without explicit "
+        rep.rule = ("TLC enumerates LdapMsgGen: for every pool message all 180 uniform styles (5 length forms x 4 TRUE octets x 9 trailers, four of which reuse the number of a defined optional component in another tag class) with and without explicit "
                     "defaults; for small messages every per-node combination of {minimal, 0x84} lengths x {FF, 01} x {none, [1000]}; -simulate draws random per-node "
                     "mixes of all forms for all messages.  Distinct by (message, explicit-defaults, choice sequence)")
         rep.assumptions = ["D9: trailing elements carry tags the sequence does not define", "non-minimal INTEGER contents are not a BER freedom",
